@@ -67,6 +67,7 @@ def checkSeq : Rd Verdict := do
 def checkPar : Rd Verdict := do
   let split ← rdNat; let n ← rdNat; let np ← rdNat; let tap ← rdNat
   let sents ← rdVec; let w ← rdFVec; let labels ← rdVec; let halo ← rdVec; let rows ← rdNatVec
+  let seqLabels ← rdVec
   let rec trip : List Int → List (Nat × Nat)
     | i :: j :: _ :: rest => (i.toNat, j.toNat) :: trip rest
     | _ => []
@@ -83,6 +84,13 @@ def checkPar : Rd Verdict := do
   for (g, l) in pairs halo do
     if labels.getD g 99 != l then
       return specFail (base ++ "/spec/halo_label") s!"column {g}: a neighbour sees {l}, the owner has {labels.getD g 99}" feats
+  -- CLJP / PMIS: distributed labels of the non-isolated points = labels of the real sequential routine (same weights).
+  -- Graphs with a vertex nobody's own dependency reaches are the input class of a recorded finding and go on to `common`.
+  let isoTarget := (List.range S.length).any fun v => (S.getD v []).isEmpty && !(dependents S v).isEmpty
+  if (split == 1 || split == 3) && seqLabels.length == n && !isoTarget then
+    let bad := (List.range n).filter fun i => !(S.getD i []).isEmpty && seqLabels.getD i 9 != labels.getD i 8
+    if !bad.isEmpty then
+      return specFail (base ++ "/spec/par_eq_seq") s!"vertices {showList bad}: distributed={showL labels} sequential={showL seqLabels} w={showList (w.map toString)} graph={repr S} rows per rank={showList rows}" feats
   return common base split S w labels feats
 
 def run (op : String) (a : Array Int) : Verdict :=
